@@ -1049,6 +1049,121 @@ M("C04", "R-split-rewritten", EXTF,
                 new_stored_crops_eaten = cf_eaten - cf_produced
                 immediately_eaten = cf_eaten - new_stored_crops_eaten''', None)
 
+# ---------------------------------------------------------------------------- C03
+FABF = "src/food_system/feed_and_biofuels.py"
+VALF = "src/optimizer/validate_results.py"
+M("C03", "return-tuple-names-swapped", FABF,
+  '''        return (
+            biofuels,
+            feed,
+        )''', '''        return (
+            feed,
+            biofuels,
+        )''', "C03.SHUT")
+M("C03", "tail-not-zero", FABF,
+  '''        feed_kcals = np.array(
+            [self.feed_monthly_usage.kcals] * feed_duration
+            + [0] * (self.NMONTHS - feed_duration)
+        )''', '''        feed_kcals = np.array(
+            [self.feed_monthly_usage.kcals] * feed_duration
+            + [self.feed_monthly_usage.kcals] * (self.NMONTHS - feed_duration)
+        )''', "C03.SHUT")
+M("C03", "biofuel-one-month-longer", FABF,
+  '''        biofuels_kcals = [self.biofuel_monthly_usage.kcals] * biofuel_duration + [0] * (
+            self.NMONTHS - biofuel_duration
+        )''', '''        biofuels_kcals = [self.biofuel_monthly_usage.kcals] * (biofuel_duration + 1) + [0] * (
+            self.NMONTHS - biofuel_duration - 1
+        )''', "C03.SHUT")
+M("C03", "feed-uses-biofuel-delay", FABF,
+  '''        feed_duration = constants_for_params["DELAY"]["FEED_SHUTOFF_MONTHS"]''',
+  '''        feed_duration = constants_for_params["DELAY"]["BIOFUEL_SHUTOFF_MONTHS"]''', "C03.SHUT")
+M("C03", "first-round-hand-off-crossed", PARF,
+  '''            meat_dictionary_round1,
+            feed_demand,  # the actual demand asked for by the user
+            biofuels_demand,  # the actual demand asked for by the user
+            feed_meat_object_round1,
+        )''', '''            meat_dictionary_round1,
+            biofuels_demand,  # the actual demand asked for by the user
+            feed_demand,  # the actual demand asked for by the user
+            feed_meat_object_round1,
+        )''', "C03.WIRE")
+M("C03", "validator-call-removed-round2", RUNF,
+  '''                Validator.assert_feed_used_below_feed_demand(
+                    feed_demand, interpreted_results_round2, round=2
+                )
+''', '', "C03.WIRE")
+M("C03", "validator-only-prints", VALF,
+  '''        assert np.all((feed_demand - reduced_feed_correct_units).kcals > -1e-6), (''',
+  '''        if not np.all((feed_demand - reduced_feed_correct_units).kcals > -1e-6): print(''', "C03.WIRE")
+M("C03", "validator-compares-wrong-way", VALF,
+  '''        assert np.all(
+            (biofuels_demand - reduced_biofuels_correct_units).kcals > -1e-6
+        ), (''', '''        assert np.all(
+            (reduced_biofuels_correct_units - biofuels_demand).kcals > -1e-6
+        ), (''', "C03.WIRE")
+M("C03", "feed-sum-forgets-stored-food", VALF,
+  '''            "outdoor_crops_feed",
+            "stored_food_feed",
+        ]''', '''            "outdoor_crops_feed",
+        ]''', "C03.WIRE")
+M("C03", "round3-validated-on-round2-results", RUNF,
+  '''        Validator.assert_feed_used_below_feed_demand(
+            feed_demand, interpreted_results_round3, round=3
+        )''', '''        Validator.assert_feed_used_below_feed_demand(
+            feed_demand, interpreted_results_for_round3, round=3
+        )''', "C03.WIRE")
+M("C03", "round2-biofuel-ceiling-is-feed", PARF,
+  '''        time_consts_round2["max_biofuel_that_could_be_used"] = biofuels_demand''',
+  '''        time_consts_round2["max_biofuel_that_could_be_used"] = feed_demand''', "C03.CEIL")
+M("C03", "round2-pins-nothing", RUNF,
+  '''            optimization_type="to_animals",
+            min_human_food_consumption=min_human_food_consumption,''', '''            optimization_type="to_animals",
+            min_human_food_consumption=interpreted_results_round1.min_human_food_consumption,''', "C03.PIN")
+M("C03", "bump-ceilings-crossed", PARF,
+  '''                biofuels_demand.in_units_bil_kcals_thou_tons_thou_tons_per_month().kcals,
+                feed_demand.in_units_bil_kcals_thou_tons_thou_tons_per_month().kcals,''',
+  '''                feed_demand.in_units_bil_kcals_thou_tons_thou_tons_per_month().kcals,
+                biofuels_demand.in_units_bil_kcals_thou_tons_thou_tons_per_month().kcals,''', "C03.R3")
+M("C03", "round3-feed-scaled-up", PARF,
+  '''            feed_sum_billion_kcals = feed_sum_billion_kcals * 0.999999999''',
+  '''            feed_sum_billion_kcals = feed_sum_billion_kcals * 1.05''', "C03.R3")
+M("C03", "interpreter-feed-biofuel-crossed", INTF,
+  '''        self.scp_feed = methane_scp_used_for_feed.in_units_percent_fed()''',
+  '''        self.scp_feed = methane_scp_used_for_biofuel.in_units_percent_fed()''', "C03.WIRE")
+M("C03", "R-first-round-names-fixed", PARF,
+  '''            feed_biofuels_class,  # zero feed, zero biofuel
+            biofuels_demand,  # biofuels requested by the user
+            feed_demand,  # feed requested by the user
+            meat_dictionary_round1,  # meat if no feed were available
+            feed_meat_object_round1,
+        ) = self.init_meat_and_dairy_and_feed_from_breeding_and_subtract_feed_biofuels_round1(''',
+  '''            feed_biofuels_class,  # zero feed, zero biofuel
+            meat_dictionary_round1,  # meat if no feed were available
+            feed_demand,  # feed requested by the user
+            biofuels_demand,  # biofuels requested by the user
+            feed_meat_object_round1,
+        ) = self.init_meat_and_dairy_and_feed_from_breeding_and_subtract_feed_biofuels_round1(''', None,
+  more=[(PARF, '''            feed_biofuels_class,  # zero feed, zero biofuel
+            biofuels_demand,  # biofuels requested by the user
+            feed_demand,  # feed requested by the user
+            meat_dictionary_round1,
+            feed_meat_object_round1,
+        )
+
+    def get_second_round_kcals_with_redistributed_meat(''', '''            feed_biofuels_class,  # zero feed, zero biofuel
+            meat_dictionary_round1,
+            feed_demand,  # feed requested by the user
+            biofuels_demand,  # biofuels requested by the user
+            feed_meat_object_round1,
+        )
+
+    def get_second_round_kcals_with_redistributed_meat(''')])
+M("C03", "R-demand-built-with-helper-local", FABF,
+  '''        biofuels_fat = [self.biofuel_monthly_usage.fat] * biofuel_duration + [0] * (
+            self.NMONTHS - biofuel_duration
+        )''', '''        months_off = self.NMONTHS - biofuel_duration
+        biofuels_fat = [self.biofuel_monthly_usage.fat] * biofuel_duration + [0] * months_off''', None)
+
 # ---------------------------------------------------------------------------- runner
 
 COPY = ["src", "scenarios", "scripts", "plot_manuscript_figures.py", "tests"]
